@@ -427,6 +427,22 @@ pub fn generate(g: &mut Gen) {
     g.case(vec!["dec nullable.anyuint f6".to_string(), "dec nullable.anyuint f7".into(), "dec nullable.anyuint 05".into(),
         "dec anycbor 9f0102ff".into(), "dec anycbor 98020102ff".into(), "dec keepraw.vec.u64 9f0102ff".into(),
         "mut keepraw.vec.u64 9f0102ff 3".into(), "peek keepraw.vec.u64 9f0102ff".into(), "mut keepraw.anyuint 1805 7".into()]);
+    if g.thorough() {
+        // exhaustive small domain: every 1- and 2-byte input for the length-preserving integer and its containers
+        for hi in 0..=255u32 {
+            let mut ops = vec![format!("dec anyuint {:02x}", hi), format!("dec nullable.anyuint {:02x}", hi)];
+            for lo in 0..=255u32 { ops.push(format!("dec anyuint {:02x}{:02x}", hi, lo)); }
+            g.case(ops);
+        }
+        for hi in [0x80u32, 0x81, 0x82, 0x98, 0x99, 0x9a, 0x9b, 0x9f, 0xa0, 0xa1, 0xb8, 0xbf] {
+            let mut ops = vec![];
+            for lo in 0..=255u32 {
+                ops.push(format!("dec mia.anyuint {:02x}{:02x}01ff", hi, lo));
+                ops.push(format!("dec kvp.anyuint.anyuint {:02x}{:02x}0102ff", hi, lo));
+            }
+            g.case(ops);
+        }
+    }
     let n = g.cases.saturating_sub(3);
     for i in 0..n {
         let mut rng = g.rng.fork();
